@@ -241,8 +241,12 @@ func (e *Term) writeTo(s *strings.Builder) {
 		e.Query.writeTo(s)
 		s.WriteByte(')')
 	}
-	for _, e := range e.SuffixList {
-		e.writeTo(s)
+	for i, f := range e.SuffixList {
+		if i == 0 && e.Type == TermTypeIdentity && f.Index != nil {
+			f.Index.writeTo(s) // ". .[0]" != ".[0]"
+		} else {
+			f.writeTo(s)
+		}
 	}
 }
 
